@@ -49,33 +49,35 @@ func RuleKColumnsAgree(c *core.Ctx) {
 			addCell = fn
 		}
 	}
-	for _, fn := range p.SrcFuncs() {
-		if core.PkgPathOf(fn) != pkgTable || fn.Signature.Recv() == nil || fn.Parent() != nil || !isNamed(derefType(fn.Signature.Recv().Type()), rowT) || fn == addCell {
-			continue
-		}
-		calls, loops, capped := 0, false, false
-		for _, b := range fn.Blocks {
-			for _, pb := range b.Preds {
-				if b.Dominates(pb) {
-					loops = true
-				}
+	for round := 0; round < 4; round++ {
+		for _, fn := range p.SrcFuncs() {
+			if core.PkgPathOf(fn) != pkgTable || fn.Signature.Recv() == nil || fn.Parent() != nil || !isNamed(derefType(fn.Signature.Recv().Type()), rowT) || fn == addCell || addOne[fn] || fill[fn] {
+				continue
 			}
-			for _, in := range b.Instrs {
-				if call, ok := in.(*ssa.Call); ok {
-					if callee := call.Call.StaticCallee(); callee != nil && (callee == addCell || addOne[callee]) {
-						calls++
-					}
-					if bi, ok := call.Call.Value.(*ssa.Builtin); ok && bi.Name() == "cap" {
-						capped = true
+			calls, loops, capped := 0, false, false
+			for _, b := range fn.Blocks {
+				for _, pb := range b.Preds {
+					if b.Dominates(pb) {
+						loops = true
 					}
 				}
+				for _, in := range b.Instrs {
+					if call, ok := in.(*ssa.Call); ok {
+						if callee := call.Call.StaticCallee(); callee != nil && (callee == addCell || addOne[callee]) {
+							calls++
+						}
+						if bi, ok := call.Call.Value.(*ssa.Builtin); ok && bi.Name() == "cap" {
+							capped = true
+						}
+					}
+				}
 			}
-		}
-		switch {
-		case !loops && calls == 1 && len(fn.Blocks) == 1:
-			addOne[fn] = true
-		case loops && capped:
-			fill[fn] = true
+			switch {
+			case !loops && calls == 1 && len(fn.Blocks) == 1:
+				addOne[fn] = true
+			case loops && capped:
+				fill[fn] = true
+			}
 		}
 	}
 	// second pass for fill methods that call add-one methods declared later
@@ -107,7 +109,7 @@ func RuleKColumnsAgree(c *core.Ctx) {
 		return
 	}
 
-	ev := &colEval{p: p, stores: map[string][]*ssa.Store{}, asg: map[string]bool{}}
+	ev := &colEval{p: p, stores: map[string][]*ssa.Store{}, asg: map[string]bool{}, addOne: addOne, fill: fill}
 	for _, fn := range p.SrcFuncs() {
 		for _, b := range fn.Blocks {
 			for _, in := range b.Instrs {
@@ -186,39 +188,11 @@ func RuleKColumnsAgree(c *core.Ctx) {
 		// row aliases and the calls that add to each row
 		type rowInfo struct {
 			site
-			adds    map[ssa.Instruction]int // 1 add, 2 fill
-			escapes string
+			uses *rowUses
 		}
 		var infos []*rowInfo
 		for _, r := range rows[pk] {
-			ri := &rowInfo{site: r, adds: map[ssa.Instruction]int{}}
-			var follow func(v ssa.Value, depth int)
-			follow = func(v ssa.Value, depth int) {
-				if v.Referrers() == nil || depth > 64 {
-					return
-				}
-				for _, ref := range *v.Referrers() {
-					switch x := ref.(type) {
-					case *ssa.DebugRef:
-					case *ssa.Call:
-						callee := x.Call.StaticCallee()
-						if callee != nil && len(x.Call.Args) > 0 && x.Call.Args[0] == v && (addOne[callee] || fill[callee]) {
-							if fill[callee] {
-								ri.adds[x] = 2
-							} else {
-								ri.adds[x] = 1
-								follow(x, depth+1)
-							}
-							continue
-						}
-						ri.escapes = "handed to " + describeCallee(x)
-					default:
-						ri.escapes = fmt.Sprintf("used by %T at %s", ref, p.Pos(ref.Pos()))
-					}
-				}
-			}
-			follow(r.call, 0)
-			infos = append(infos, ri)
+			infos = append(infos, &rowInfo{site: r, uses: ev.usesOf(r.call, 0)})
 		}
 		// discover the atoms: evaluate everything once per assignment until no
 		// new atom appears, then enumerate
@@ -226,12 +200,12 @@ func RuleKColumnsAgree(c *core.Ctx) {
 			ev.unknown = ""
 			w, wok, wwhy = ev.width(newIn, newFn)
 			for _, ri := range infos {
-				if ri.escapes != "" {
+				if ri.uses.escapes != "" {
 					rowOuts = append(rowOuts, nil)
-					rowWhy = append(rowWhy, ri.escapes)
+					rowWhy = append(rowWhy, ri.uses.escapes)
 					continue
 				}
-				outs, why := ev.rowCount(ri.call, ri.adds)
+				outs, why := ev.rowCount(ri.call.Block(), ri.call, ri.uses, 0)
 				rowOuts = append(rowOuts, outs)
 				rowWhy = append(rowWhy, why)
 			}
@@ -369,6 +343,69 @@ type colEval struct {
 	atoms   []string
 	unknown string
 	depth   int
+	addOne  map[*ssa.Function]bool
+	fill    map[*ssa.Function]bool
+}
+
+// rowUses: what a function does with a row (a value of type *table.Row and
+// the results of the one-cell methods called on it).
+type rowUses struct {
+	adds    map[ssa.Instruction]int      // 1: adds one cell, 2: fills up to the width
+	helpers map[ssa.Instruction]*rowUses // a function of the module that is given the row: what it does with its parameter
+	entry   map[ssa.Instruction]*ssa.Function
+	escapes string
+}
+
+func (e *colEval) usesOf(row ssa.Value, depth int) *rowUses {
+	u := &rowUses{adds: map[ssa.Instruction]int{}, helpers: map[ssa.Instruction]*rowUses{}, entry: map[ssa.Instruction]*ssa.Function{}}
+	var follow func(v ssa.Value, d int)
+	follow = func(v ssa.Value, d int) {
+		if v.Referrers() == nil || d > 64 {
+			return
+		}
+		for _, ref := range *v.Referrers() {
+			switch x := ref.(type) {
+			case *ssa.DebugRef:
+			case *ssa.Call:
+				callee := x.Call.StaticCallee()
+				if callee != nil && len(x.Call.Args) > 0 && x.Call.Args[0] == v && (e.addOne[callee] || e.fill[callee]) {
+					if e.fill[callee] {
+						u.adds[x] = 2
+					} else {
+						u.adds[x] = 1
+						follow(x, d+1)
+					}
+					continue
+				}
+				// a helper of the module that is given the row once and returns nothing of it
+				if callee != nil && e.p.InModule(callee) && len(callee.Blocks) > 0 && depth < 3 && callee != x.Parent() && (x.Referrers() == nil || len(*x.Referrers()) == 0) {
+					at := -1
+					for i, a := range x.Call.Args {
+						if a == v {
+							if at >= 0 {
+								at = -2
+								break
+							}
+							at = i
+						}
+					}
+					if at >= 0 && at < len(callee.Params) {
+						hu := e.usesOf(callee.Params[at], depth+1)
+						if hu.escapes == "" {
+							u.helpers[x] = hu
+							u.entry[x] = callee
+							continue
+						}
+					}
+				}
+				u.escapes = "handed to " + describeCallee(x)
+			default:
+				u.escapes = fmt.Sprintf("used by %T at %s", ref, e.p.Pos(ref.Pos()))
+			}
+		}
+	}
+	follow(row, 0)
+	return u
 }
 
 func fieldKey(t types.Type, field int) string {
@@ -799,8 +836,9 @@ func (e *colEval) loopSized(v ssa.Value, came map[*ssa.BasicBlock]*ssa.BasicBloc
 
 // rowCount: the numbers of cells the row created by call receives, one per
 // way through the function under the current assignment.
-func (e *colEval) rowCount(call *ssa.Call, adds map[ssa.Instruction]int) ([]colCount, string) {
-	fn := call.Parent()
+func (e *colEval) rowCount(start *ssa.BasicBlock, call *ssa.Call, uses *rowUses, depth int) ([]colCount, string) {
+	fn := start.Parent()
+	adds := uses.adds
 	isHeader := func(b *ssa.BasicBlock) bool {
 		for _, pb := range b.Preds {
 			if b.Dominates(pb) {
@@ -907,13 +945,38 @@ func (e *colEval) rowCount(call *ssa.Call, adds map[ssa.Instruction]int) ([]colC
 			}
 			return merge(res)
 		}
-		var n colCount
+		ns := []colCount{{}}
 		for _, in := range b.Instrs[idx:] {
 			switch adds[in] {
 			case 1:
-				n.c++
+				for i := range ns {
+					ns[i].c++
+				}
 			case 2:
-				n.full = true
+				for i := range ns {
+					ns[i].full = true
+				}
+			}
+			if hu := uses.helpers[in]; hu != nil {
+				callee := uses.entry[in]
+				houts, hwhy := e.rowCount(callee.Blocks[0], nil, hu, depth+1)
+				if houts == nil {
+					if why == "" {
+						why = "in " + core.FuncName(callee) + ": " + hwhy
+					}
+					return nil
+				}
+				var prod []colCount
+				for _, n := range ns {
+					for _, h := range houts {
+						prod = append(prod, colCount{c: n.c + h.c, loop: n.loop + h.loop, full: n.full || h.full})
+					}
+				}
+				ns = prod
+				if len(ns) > 64 {
+					why = "too many ways through the helpers"
+					return nil
+				}
 			}
 		}
 		var succs []*ssa.BasicBlock
@@ -931,32 +994,43 @@ func (e *colEval) rowCount(call *ssa.Call, adds map[ssa.Instruction]int) ([]colC
 				succs = b.Succs
 			}
 		default:
-			return []outcome{{n: n}}
+			var res []outcome
+			for _, n := range ns {
+				res = append(res, outcome{n: n})
+			}
+			return merge(res)
 		}
 		var res []outcome
 		for _, s := range succs {
 			for _, o := range walk(s, 0, stop, false) {
-				o.n.c += n.c
-				o.n.full = o.n.full || n.full
-				res = append(res, o)
+				for _, n := range ns {
+					o2 := o
+					o2.n.c += n.c
+					o2.n.loop += n.loop
+					o2.n.full = o2.n.full || n.full
+					res = append(res, o2)
+				}
 			}
 		}
 		return merge(res)
 	}
-	// the row ends where the loops that contain its creation start over
+	// the row ends where the loops that contain its creation start over; in a
+	// helper that is given the row, where the helper returns
 	stop := map[*ssa.BasicBlock]bool{}
-	for _, b := range fn.Blocks {
-		if isHeader(b) && inLoop(b, call.Block()) {
-			stop[b] = true
-		}
-	}
 	idx := 0
-	for i, in := range call.Block().Instrs {
-		if in == call {
-			idx = i + 1
+	if call != nil {
+		for _, b := range fn.Blocks {
+			if isHeader(b) && inLoop(b, call.Block()) {
+				stop[b] = true
+			}
+		}
+		for i, in := range call.Block().Instrs {
+			if in == call {
+				idx = i + 1
+			}
 		}
 	}
-	outs := walk(call.Block(), idx, stop, true)
+	outs := walk(start, idx, stop, idx > 0 || !isHeader(start))
 	if why != "" {
 		return nil, why
 	}
